@@ -43,6 +43,7 @@ class Ctx(object):
     self.lock = threading.Lock()
     self.times = {}
     self.record_times = False
+    self.record_ends = False
 
 
 def _inv(node, k):
@@ -97,7 +98,8 @@ def build_phase(node, ctx, htf, diag_enum, diagnoses_lib, plugs=None):
           except BaseException:  # pylint: disable=broad-except
             ctx.events.append('eswallow%d.%d' % (pid, k))
       else:
-        time.sleep(inv['sleep'])
+        for _ in range(inv.get('steps', 1)):
+          time.sleep(inv['sleep'])
       ctx.times[(pid, k, 'end')] = time.time() if ctx.record_times else None
     meas = inv.get('meas') or []
     for i, kind in enumerate(kinds):
@@ -129,6 +131,20 @@ def build_phase(node, ctx, htf, diag_enum, diagnoses_lib, plugs=None):
       return None if (pid + k) % 2 else htf.PhaseResult.CONTINUE
     return {'failcont': htf.PhaseResult.FAIL_AND_CONTINUE, 'rep': htf.PhaseResult.REPEAT,
             'skip': htf.PhaseResult.SKIP, 'stop': htf.PhaseResult.STOP, 'failsub': htf.PhaseResult.FAIL_SUBTEST}[raw]
+
+  inner = body
+
+  def body(test, **plug_kwargs):  # pylint: disable=function-redefined
+    if not ctx.record_ends:
+      return inner(test, **plug_kwargs)
+    k = ctx.body_calls.get(pid, 0)
+    try:
+      r = inner(test, **plug_kwargs)
+      ctx.events.append('ee%d.%d:ok' % (pid, k))
+      return r
+    except BaseException as e:  # pylint: disable=broad-except
+      ctx.events.append('ee%d.%d:%s' % (pid, k, 'killed' if type(e).__name__ == 'ThreadTerminationError' else 'exc'))
+      raise
 
   body.__name__ = 'p%d' % pid
   opts = node.get('opts') or {}
